@@ -223,6 +223,7 @@ INVALID = [
     ("a", "ACGT;required"), ("a", "ACGT;optional"), ("b", "ACGT...TTTT"), ("g", "...ACGT"), ("a", "A{}C"), ("a", "{3}A"), ("a", "A{3"),
     ("a", "A}C"), ("a", "ACGT;required;optional...TTT"), ("a", ""), ("a", "ACG!"), ("b", "ACGT..."),
     ("a", "^ACGTACGT;o=3...TTTTGGGG"), ("a", "ACGT...TTTT$;min_overlap=4"), ("g", "^ACGT;o=2...TTTT"), ("g", "ACGT...TTTT$;o=3"),
+    ("b", "ACGTACGT;rightmost"), ("b", "name=ACGTACGT;e=0.2;rightmost"),
 ]
 
 
@@ -376,6 +377,29 @@ def check(ctx):
             ctx.violation("sequence of specifications: a specification means something else next to others than alone",
                           {"specs": [[c, sp.replace(scratch, "$D")] for c, sp in specs], "globals": g, "together": jsonable(together), "alone": jsonable(alone)})
     dist["sequences of specifications"] = nseq
+    # file:, ^file:, file$: with records that are linked adapters: every record is read, and anchored as if ^ / $ had been
+    # written next to it (-a ^file: means -a ^A...B, -g file$: means -g A...B$)
+    nfl = 0
+    for _ in range(ctx.size(30, 400)):
+        g = {"max_errors": rng.choice(["0.1", "0.2", "0"]), "min_overlap": 3, "read_wildcards": False, "adapter_wildcards": True, "indels": rng.random() < 0.8}
+        recs = [("lk%d" % i, "%s...%s" % ("".join(rng.choice("ACGT") for _ in range(rng.choice([5, 8]))), "".join(rng.choice("ACGT") for _ in range(rng.choice([5, 8])))))
+                for i in range(rng.randint(1, 3))]
+        cmd, variant = rng.choice([("a", "^file:"), ("g", "file$:"), ("a", "file:"), ("g", "file:"), ("g", "^file:"), ("a", "file$:")])
+        pstr = rng.choice(["", "", ";e=0.2", ";noindels"])
+        desc_file, real = impl_parse(variant + "PATH" + pstr, cmd, g, scratch, recs)
+        spelled = []
+        for n, sq in recs:
+            fr_, bk_ = sq.split("...")
+            # file-level parameters hold for the whole record, i.e. for both parts of a linked adapter
+            body = ("^" if variant.startswith("^") else "") + fr_ + pstr + "..." + bk_ + ("$" if "$" in variant else "") + pstr
+            spelled.append(impl_parse("%s=%s" % (n, body), cmd, g, scratch, None)[0])
+        want = None if any(x is None for x in spelled) else [x[0] for x in spelled]
+        nfl += 1
+        ctx.count(("filelinked", cmd, variant, pstr, tuple(recs)), desc_file is not None)
+        if (desc_file is None) != (want is None) or (desc_file is not None and not (len(desc_file) == len(want) and all(same_any(d, e) for d, e in zip(desc_file, want)))):
+            ctx.violation("file: with linked-adapter records does not mean the records written out",
+                          {"cmd": "-" + cmd, "spec": variant + "PATH" + pstr, "globals": g, "records": recs, "implementation": jsonable(desc_file), "documented": jsonable(want)})
+    dist["file: with linked-adapter records"] = nfl
     # CLI: invalid specifications exit with status 2
     import cutadapt.cli as cli
     import io
